@@ -30,24 +30,49 @@ func Since(t Time) Duration { return Now().Sub(t) }
 func Until(t Time) Duration { return t.Sub(Now()) }
 func Sleep(d Duration)      { rt.Sleep(int64(d)) }
 func Unix(s, ns int64) Time { return time.Unix(s, ns) }
-func After(d Duration) *rt.Chan[Time] {
-	if d < 0 {
-		d = 0
-	}
-	return rt.After(int64(d), at(rt.Now()+int64(d)))
-}
 
-// Timer supports the subset NewTimer / C / Stop (Stop only reports; a stopped
-// timer's channel simply is never read by well-formed code).
+func After(d Duration) *rt.Chan[Time] { return NewTimer(d).C }
+
+// Timer mirrors time.Timer (C, Stop, Reset).
 type Timer struct {
 	C *rt.Chan[Time]
+	t *rt.Timer[Time]
 }
 
-func NewTimer(d Duration) *Timer { return &Timer{C: After(d)} }
-func (t *Timer) Stop() bool      { return t.C.Len() == 0 }
+func NewTimer(d Duration) *Timer {
+	t := rt.NewTimer(int64(d), 0, at)
+	return &Timer{C: t.C, t: t}
+}
 
+func (t *Timer) Stop() bool            { return t.t.Stop() }
+func (t *Timer) Reset(d Duration) bool { return t.t.Reset(int64(d)) }
+
+// AfterFunc runs f in its own simulated goroutine once d has elapsed.
 func AfterFunc(d Duration, f func()) *Timer {
-	c := After(d)
-	rt.Go("time.AfterFunc", func() { rt.Recv(c); f() })
-	return &Timer{C: c}
+	t := NewTimer(d)
+	rt.Go("time.AfterFunc", func() {
+		if _, ok := rt.Recv2(t.C); ok {
+			f()
+		}
+	})
+	return t
 }
+
+// Ticker mirrors time.Ticker; ticks are dropped when the receiver is slow, as in Go.
+type Ticker struct {
+	C *rt.Chan[Time]
+	t *rt.Timer[Time]
+}
+
+func NewTicker(d Duration) *Ticker {
+	if d <= 0 {
+		panic("non-positive interval for NewTicker")
+	}
+	t := rt.NewTimer(int64(d), int64(d), at)
+	return &Ticker{C: t.C, t: t}
+}
+
+func (t *Ticker) Stop()            { t.t.Stop() }
+func (t *Ticker) Reset(d Duration) { t.t.Reset(int64(d)) }
+
+func Tick(d Duration) *rt.Chan[Time] { return NewTicker(d).C }
